@@ -701,6 +701,9 @@ func GenOps(e *Exec, args []string) {
 			// C08: apply echo
 			emit(J{"op": "seq", "type": t.Name, "tf": enc, "obj": "zero", "tag": "echo",
 				"steps": []interface{}{J{"do": "from"}, J{"do": "to"}, J{"do": "from"}}})
+			// C06 / C08 (CopyTo step): an arbitrary typed struct into a decoded plan / state object (null objects and
+			// collections hold nil Attrs / Elems there, unknown values anywhere): no panic, no diagnostic, the result follows the struct
+			emit(J{"op": "copyTo", "type": t.Name, "obj": genGo(Mode{ZeroPct: 15 * (i % 3)}), "tf": enc, "tag": "to-plan"})
 			// C06: malformed variants
 			emit(J{"op": "copyFrom", "type": t.Name, "tf": EncodeTf(malform(r, o, 15)), "prior": "zero", "tag": "from-malformed"})
 			emit(J{"op": "copyFrom", "type": t.Name, "tf": EncodeTf(malform(r, o, 40)), "prior": genGo(Mode{ZeroPct: 30}), "tag": "from-malformed"})
